@@ -795,6 +795,8 @@ class XPathToken(Token[ta.XPathTokenType]):
             return value
 
         type_name = type_name[3:].rstrip('+*?')
+        if type_name not in self.parser.symbol_table:
+            return value  # e.g. xs:anyAtomicType, that has no constructor
         token = cast('XPathConstructor', self.parser.symbol_table[type_name](self.parser))
 
         def cast_value(v: Any) -> Any:
